@@ -217,6 +217,31 @@ def check_case(case, acc):
                     raise Violation("query:" + key.split(":")[0], "node %s %s: generated class %r, plain class %r (forest %s, class overrides %s)" % (i, key, got.get(i, {}).get(key), want[i][key], forest_now, case["methods"]))
     if calls:
         raise Violation("special-method-invoked", "read-only queries invoked %s (class overrides %s)" % (dict(calls), case["methods"]))
+    if case["base"] in ("Node", "ListBase"):
+        # trees BUILT by the library from a document (DictImporter / JsonImporter with nodecls): the importer's result is the
+        # root, whatever the nodes say about their truth value, length or equality
+        from anytree.importer import DictImporter, JsonImporter
+
+        doc = {"name": "root", "children": [{"name": "a", "children": [{"name": "a1"}, {"name": "a2"}]}, {"name": "b"}]}
+        shapes_seen = []
+        for cls in (adv, plain):
+            for how in ("dict", "json"):
+                try:
+                    root = DictImporter(nodecls=cls).import_(doc) if how == "dict" else JsonImporter(dictimporter=DictImporter(nodecls=cls)).import_(json.dumps(doc))
+                    todo, names = [root], []
+                    if root.parent is not None:
+                        names.append("result has a parent")
+                    while todo:
+                        cur = todo.pop()
+                        names.append(str(cur.name))
+                        todo.extend(reversed(cur.children))
+                    shapes_seen.append(("ok", names))
+                except Exception as exc:  # noqa: BLE001 - exception classes are compared
+                    shapes_seen.append((type(exc).__name__, None))
+        if shapes_seen[0] != shapes_seen[2] or shapes_seen[1] != shapes_seen[3]:
+            raise Violation("query:import", "importing %r with nodecls: generated class %r, plain class %r (class overrides %s)" % (doc, shapes_seen[:2], shapes_seen[2:], case["methods"]))
+        if calls:
+            raise Violation("special-method-invoked", "importing a document invoked %s (class overrides %s)" % (dict(calls), case["methods"]))
     wide = any(len(kids) >= 2 for _, kids in forest_now)
     acc.nontrivial(len(case["methods"]) >= 2 and wide)
     acc.tag("base:" + case["base"])
